@@ -656,6 +656,18 @@ func checkC10(w *World, r *Recorder) propInfo {
 	ruleMarshalTwins(w, r, "C10-W5", false)
 	ruleContainerCodec(w, r, "C10-W6", false)
 	ruleEncodeReturnsCodecOutput(w, r, "C10-W7", false)
+	// W8: the emitted bytes are the caller's own (fresh), so they stay exactly the profile's wire format after later calls
+	for _, n := range []string{"EncodeClaimsToCBOR", "ValidateAndEncodeClaimsToCBOR"} {
+		if fn := w.Root.Func(n); fn != nil {
+			ruleResultFresh(w, r, "C10-W8", fn, n, 0)
+		}
+	}
+	// W9: the same for what extension profiles emit
+	{
+		sub := NewRecorder(r.Property)
+		c15Walker(w, sub, "doSerializeStructToCBOR")
+		remap(r, sub, map[string]string{"C15-H4": "C10-W9"})
+	}
 	r.Floor("C10-W1", 26)
 	r.Floor("C10-W3", 26)
 	r.Floor("C10-W4", 1)
@@ -681,6 +693,17 @@ func checkC09(w *World, r *Recorder) propInfo {
 	ruleOptions(w, r, "C09-I5d", "DecOptions", "own-encodings")
 	ruleModesInitOnly(w, r, "C09-I5")
 	ruleEncodeReturnsCodecOutput(w, r, "C09-I6", false)
+	// I7: extension profiles (structs embedding the built-in claims) go through
+	// the embedding-aware walkers: a field may be left out of the emitted map /
+	// tolerated as absent only under the conditions of C15-H4 (embedded,
+	// untagged, "-", omitempty with a zero value / an absent key), otherwise a
+	// present-but-empty claim would not survive the round trip
+	{
+		sub := NewRecorder(r.Property)
+		c15Walker(w, sub, "doSerializeStructToCBOR")
+		c15Walker(w, sub, "doPopulateStructFromCBOR")
+		remap(r, sub, map[string]string{"C15-H4": "C09-I7"})
+	}
 	r.Floor("C09-I1", 1)
 	r.Floor("C09-I2", 2)
 	r.Floor("C09-I3", 26)
@@ -829,6 +852,13 @@ func checkC12(w *World, r *Recorder) propInfo {
 			}
 			r.Check(ok, "C12-J6", "Evidence.MarshalJSON", w.FnPos(fn), "returns json.Marshal(e.Claims) unchanged", "Evidence.MarshalJSON does not return the JSON encoding of its own claims")
 		}
+	}
+	// J8: extension profiles' JSON goes through the embedding-aware walkers (see C09-I7)
+	{
+		sub := NewRecorder(r.Property)
+		c15Walker(w, sub, "doSerializeStructToJSON")
+		c15Walker(w, sub, "doPopulateStructFromJSON")
+		remap(r, sub, map[string]string{"C15-H4": "C12-J8"})
 	}
 	r.Floor("C12-J1", 26)
 	r.Floor("C12-J2", 26)
